@@ -81,6 +81,8 @@ func secretScope(r *lib.Rand, base evalgen.Scope) (evalgen.Scope, *secrets, []st
 	s["sec_list_el"] = cty.ListVal([]cty.Value{m(sc.sv()), m(sc.sv())})
 	dup := sc.sv()
 	s["sec_dup"] = m(cty.ListVal([]cty.Value{dup, sc.sv(), dup}))
+	dup2 := sc.sv()
+	s["sec_dup_both"] = m(cty.ListVal([]cty.Value{m(dup2), m(sc.sv()), m(dup2)})) // marked as a whole AND element by element
 	s["sec_nlist"] = m(cty.ListVal([]cty.Value{sc.num(), sc.num()}))
 	s["sec_map"] = m(cty.MapVal(map[string]cty.Value{sc.str(): sc.sv(), sc.str(): sc.sv()}))
 	s["sec_map_el"] = cty.MapVal(map[string]cty.Value{"a": m(sc.sv()), "b": m(sc.sv())})
@@ -157,6 +159,8 @@ func site(summary string) string {
 	switch summary {
 	case "Duplicate object key":
 		return "for-duplicate-object-key"
+	case "Duplicate object attribute":
+		return "json-duplicate-object-attribute"
 	}
 	if m := blockSummaryRe.FindStringSubmatch(summary); m != nil {
 		return "hcldec-" + slug(m[1]) + "-block"
@@ -198,6 +202,11 @@ func checkDiags(cx *lib.Ctx, diags hcl.Diagnostics, files map[string]*hcl.File, 
 				// type-mismatch messages: which part of the message holds the secret tells the recorded root
 				// cause (an attribute name of a marked object in a type description) from anything else
 				key += ":" + messageShape(d.Detail, sc)
+			}
+			if site(d.Summary) == "hcldec-duplicate-block" && leafMarked[t] {
+				// the recorded finding is about labels taken from the elements of a collection marked only at the
+				// top; an element that carries the mark itself must never become a label
+				key += ":label-from-an-element-marked-itself"
 			}
 			if _, outer := markedIteration(d, files, t); scopeHoldsUnmarked(d.EvalContext, t) && outer {
 				// the secret reached this evaluation through a child-scope variable (for / dynamic-block
@@ -306,6 +315,9 @@ var families = []string{
 	// function calls
 	`upper(sec_list)`, `upper(sec_n, sec_s)`, `upper()`, `upper(sec_null)`, `min(sec_s)`, `min(sec_list...)`, `sum(sec_list...)`, `sum(sec_s...)`, `sum(sec_obj...)`, `sum(sec_null...)`, `sum(sec_map...)`,
 	`length(sec_n)`, `length(sec_null)`, `join(sec_list, sec_s)`, `join(",", sec_nlist, sec_obj)`, `join(",", [sec_null])`, `concat(sec_list, sec_n)`, `concat(sec_s)`, `tolist(sec_s)`, `toset(sec_obj)`, `keys(sec_list)`, `keys(sec_s)`,
+	// arguments converted to a typed collection parameter: the conversion error names a path into the argument
+	`mapnum(sec_map)`, `mapnum(sec_map_el)`, `mapnum({ (sec_s) = "x" })`, `mapnum({ ok = 1, (sec_s) = "x" })`, `listnum(sec_list)`, `listnum([1, sec_s])`, `objab(sec_obj)`, `objab({ a = sec_s, b = "x" })`,
+	`nested({ outer = sec_map })`, `nested({ (sec_s) = { inner = "x" } })`, `setnum(sec_set)`, `mapnum(sec_map1)`, `mapnum(sec_obj1)`, `mapnum(sec_map2)`, `1 + mapnum(sec_map)`, `[for k in [1] : mapnum(sec_map)]`,
 	`coalesce(sec_null, sec_null)`, `coalesce(sec_list, sec_n)`, `nosuchfunction(sec_s)`, `ns::nosuch(sec_s)`, `other::id(sec_s)`, `min(sec_ns, sec_s)`, `sum(sec_ns, sec_s)`, `sum(sec_list_el...)`,
 	// traversal and attribute errors
 	`sec_typo`, `sec_typo.x`, `sec_s.x.y`, `sec_null.x`, `sec_null[0]`, `sec_list[0].x`, `sec_objlist[0].nokey`, `sec_objlist[9].name`, `sec_nested.inner.token.x`, `sec_nested.items[0].x`, `sec_tuple[0].x`, `sec_tuple.0.x`,
@@ -432,6 +444,9 @@ var bodyFamilies = []struct {
 	{"dynamic \"svc\" {\n  for_each = sec_nested.items\n  iterator = it\n  labels = [\"l${it.key}\"]\n  content {\n    a = it.value[0]\n  }\n}\n", mapSpec("blockmap")},
 	{"dynamic \"svc\" {\n  for_each = sec_list_el\n  labels = [svc.value]\n  content {\n    a = 1\n  }\n}\ndynamic \"svc\" {\n  for_each = sec_list_el\n  labels = [svc.value]\n  content {\n    a = 2\n  }\n}\n", mapSpec("blockmap")},
 	{"dynamic \"svc\" {\n  for_each = sec_map_el\n  labels = [svc.value]\n  content {\n    a = 1\n  }\n}\ndynamic \"svc\" {\n  for_each = sec_map_el\n  labels = [svc.value]\n  content {\n    a = 2\n  }\n}\n", mapSpec("blockobject")},
+	{"dynamic \"svc\" {\n  for_each = sec_dup_both\n  labels = [svc.value]\n  content {\n    a = 1\n  }\n}\n", mapSpec("blockmap")},
+	{"dynamic \"svc\" {\n  for_each = sec_dup_both\n  labels = [svc.value]\n  content {\n    a = 1\n  }\n}\n", mapSpec("blockobject")},
+	{"dynamic \"svc\" {\n  for_each = sec_dup_both\n  iterator = it\n  labels = [\"x-${it.value}\"]\n  content {\n    a = it.value.z\n  }\n}\n", mapSpec("blockmap")},
 	{"dynamic \"svc\" {\n  for_each = [sec_s, sec_s]\n  labels = [svc.value]\n  content {\n    a = svc.value * 2\n  }\n}\n", mapSpec("blockmap")},
 	{"svc \"x\" {\n  a = sec_s\n}\nsvc \"x\" {\n  a = sec_n\n}\n", mapSpec("blockmap")},
 	{"a = sec_s\n", []evalgen.SpecItem{{Kind: "attr", Name: "a", Type: rawType(cty.Number)}}},
